@@ -263,6 +263,8 @@ inline std::vector<u64> alphabet(bool thorough)
                 0x5555555555555555ULL, 3, 7, 0xFFFFFFFFULL, 0x100000000ULL, 0xFFFFFFFEFFFFFFFFULL, 0xFFFFFFFE00000001ULL,
                 0xFFFFFFFE00000002ULL, 0x7FFFFFFF80000000ULL, 0x7FFFFFFF80000001ULL};
     for (u64 x : ex) a.push_back(x);
+    // every power of two and its neighbours (strength-reduced paths for "nice" operands)
+    for (int k = 0; k < 64; k++) { a.push_back(1ULL << k); a.push_back((1ULL << k) - 1); a.push_back((1ULL << k) + 1); }
     std::sort(a.begin(), a.end());
     a.erase(std::unique(a.begin(), a.end()), a.end());
     return a;
